@@ -716,7 +716,8 @@ fn handle(line: &str, ctxs: &mut HashMap<String, Ctx>, log: &Log) -> String {
                         let _ = tx.send((out, c));
                     })
                     .unwrap();
-                match rx.recv_timeout(std::time::Duration::from_millis(3000)) {
+                let watchdog_ms: u64 = std::env::var("EE_WATCHDOG_MS").ok().and_then(|s| s.parse().ok()).unwrap_or(3000);
+                match rx.recv_timeout(std::time::Duration::from_millis(watchdog_ms)) {
                     Ok((out, c)) => {
                         ctxs.insert(id, c);
                         format!("{}\t{}", ast_s, out)
